@@ -231,7 +231,7 @@ func (s vBessSnap) String() string {
 type vConnCounter struct{ n *int32 }
 
 func (c *vConnCounter) TagRPC(ctx context.Context, _ *stats.RPCTagInfo) context.Context { return ctx }
-func (c *vConnCounter) HandleRPC(context.Context, stats.RPCStats)                      {}
+func (c *vConnCounter) HandleRPC(context.Context, stats.RPCStats)                       {}
 func (c *vConnCounter) TagConn(ctx context.Context, _ *stats.ConnTagInfo) context.Context {
 	return ctx
 }
